@@ -203,27 +203,33 @@ theorem map_getD_eraseAll (x : Option KV) (ks : List Key) :
   | some y => rfl
   | none => exact (eraseAll_nil_left ks).symm
 
+theorem mergeOld_m (s o : Props) : (s.mergeOld o).m = eraseAll (overlay s.m o.m) o.del := by
+  show ((mergeMap s.map o.m).map (fun m => eraseAll m o.del)).getD [] = _
+  rw [map_getD_eraseAll, mergeMap_getD]; rfl
+theorem mergeOld_mod (s o : Props) : (s.mergeOld o).mod = sremAll (saddAll s.mod o.mod) o.del := by
+  show (((allocIf (!o.mod.isEmpty) s.modified).map (fun x => saddAll x o.mod)).map (fun x => sremAll x o.del)).getD [] = _
+  rw [map_getD_sremAll, allocIf_map_saddAll]; rfl
+theorem mergeOld_del (s o : Props) : (s.mergeOld o).del = saddAll (sremAll s.del o.mod) o.del := by
+  show ((allocIf (!o.del.isEmpty) (s.deleted.map (fun x => sremAll x o.mod))).map (fun x => saddAll x o.del)).getD [] = _
+  rw [allocIf_map_saddAll, map_getD_sremAll]; rfl
+
 theorem merge_m (s o : Props) : (s.merge o).m = eraseAll (overlay s.m o.m) o.del := by
   show ((mergeMap s.map o.m).map (fun m => eraseAll m o.del)).getD [] = _
   rw [map_getD_eraseAll, mergeMap_getD]; rfl
 theorem merge_mod (s o : Props) : (s.merge o).mod = sremAll (saddAll s.mod o.mod) o.del := by
   show (((allocIf (!o.mod.isEmpty) s.modified).map (fun x => saddAll x o.mod)).map (fun x => sremAll x o.del)).getD [] = _
   rw [map_getD_sremAll, allocIf_map_saddAll]; rfl
-theorem merge_del (s o : Props) : (s.merge o).del = saddAll (sremAll s.del o.mod) o.del := by
-  show ((allocIf (!o.del.isEmpty) (s.deleted.map (fun x => sremAll x o.mod))).map (fun x => saddAll x o.del)).getD [] = _
-  rw [allocIf_map_saddAll, map_getD_sremAll]; rfl
-
-theorem mergeFixed_m (s o : Props) : (s.mergeFixed o).m = eraseAll (overlay s.m o.m) o.del := by
-  show ((mergeMap s.map o.m).map (fun m => eraseAll m o.del)).getD [] = _
-  rw [map_getD_eraseAll, mergeMap_getD]; rfl
-theorem mergeFixed_mod (s o : Props) : (s.mergeFixed o).mod = sremAll (saddAll s.mod o.mod) o.del := by
-  show (((allocIf (!o.mod.isEmpty) s.modified).map (fun x => saddAll x o.mod)).map (fun x => sremAll x o.del)).getD [] = _
-  rw [map_getD_sremAll, allocIf_map_saddAll]; rfl
-theorem mergeFixed_del (s o : Props) :
-    (s.mergeFixed o).del = saddAll (sremAll (sremAll s.del (keysOf o.m)) o.mod) o.del := by
+theorem merge_del (s o : Props) :
+    (s.merge o).del = saddAll (sremAll (sremAll s.del (keysOf o.m)) o.mod) o.del := by
   show ((allocIf (!o.del.isEmpty) ((s.deleted.map (fun x => sremAll x (keysOf o.m))).map (fun x => sremAll x o.mod))).map
       (fun x => saddAll x o.del)).getD [] = _
   rw [allocIf_map_saddAll, map_getD_sremAll, map_getD_sremAll]; rfl
+
+theorem getOrDefault_eq (s : Props) (k : Key) (d : Val) : s.getOrDefault k d = s.getWithFallback k d [] := by
+  unfold Props.getOrDefault Props.getWithFallback orDefault
+  cases s.map with
+  | none => rfl
+  | some m => cases lookup m k <;> rfl
 
 /-! ### the invariant is preserved by every Properties operation -/
 
@@ -310,16 +316,16 @@ theorem setAll_post (s : Props) (kvs : KV) (k : Key) (hk : k ∈ keysOf kvs) :
       · rw [b, set_mod, mem_sadd]; exact Or.inr rfl
       · rw [c, set_del, mem_srem]; exact fun h => h.2 rfl
 
-/-- the repaired merge preserves the invariant (both entities from the same loaded state) -/
-theorem inv_mergeFixed {L : KV} {s o : Props} (h : Inv L s) (ho : Inv L o) : Inv L (s.mergeFixed o) := by
+/-- `Merge` preserves the invariant (both entities from the same loaded state) -/
+theorem inv_merge {L : KV} {s o : Props} (h : Inv L s) (ho : Inv L o) : Inv L (s.merge o) := by
   have hd := h.disj; have hm := h.modDom; have he := h.delDom; have hu := h.untouched
   have od := ho.disj; have om := ho.modDom; have oe := ho.delDom; have ou := ho.untouched
   constructor
   · intro x
-    rw [mergeFixed_mod, mergeFixed_del, mem_sremAll, mem_saddAll, mem_saddAll, mem_sremAll, mem_sremAll]
+    rw [merge_mod, merge_del, mem_sremAll, mem_saddAll, mem_saddAll, mem_sremAll, mem_sremAll]
     grind
   · intro x
-    rw [mergeFixed_mod, mergeFixed_m, mem_sremAll, mem_saddAll, lookup_eraseAll, lookup_overlay]
+    rw [merge_mod, merge_m, mem_sremAll, mem_saddAll, lookup_eraseAll, lookup_overlay]
     intro hx
     rw [if_neg hx.2]
     cases hlo : lookup o.m x with
@@ -330,7 +336,7 @@ theorem inv_mergeFixed {L : KV} {s o : Props} (h : Inv L s) (ho : Inv L o) : Inv
       · exact hm x h1
       · exact absurd hlo (om x h1)
   · intro x
-    rw [mergeFixed_del, mergeFixed_m, mem_saddAll, mem_sremAll, mem_sremAll, lookup_eraseAll, lookup_overlay]
+    rw [merge_del, merge_m, mem_saddAll, mem_sremAll, mem_sremAll, lookup_eraseAll, lookup_overlay]
     intro hx
     by_cases hxd : x ∈ o.del
     · rw [if_pos hxd]
@@ -339,7 +345,7 @@ theorem inv_mergeFixed {L : KV} {s o : Props} (h : Inv L s) (ho : Inv L o) : Inv
       have : lookup o.m x = none := (lookup_eq_none_iff _ _).2 hx'.1.2
       rw [this]; exact he x hx'.1.1
   · intro x
-    rw [mergeFixed_mod, mergeFixed_del, mergeFixed_m, mem_sremAll, mem_saddAll, mem_saddAll, mem_sremAll, mem_sremAll,
+    rw [merge_mod, merge_del, merge_m, mem_sremAll, mem_saddAll, mem_saddAll, mem_sremAll, mem_sremAll,
       lookup_eraseAll, lookup_overlay]
     intro h1 h2
     have hxd : x ∉ o.del := fun hh => h2 (Or.inr hh)
@@ -356,16 +362,16 @@ theorem inv_mergeFixed {L : KV} {s o : Props} (h : Inv L s) (ho : Inv L o) : Inv
       have hsd : x ∉ s.del := fun hh => h2 (Or.inl ⟨⟨hh, hxk⟩, hxm⟩)
       exact hu x hsm hsd
 
-/-- the merge as it is preserves every clause except `Deleted ∩ dom Map = ∅` -/
-theorem weak_merge {L : KV} {s o : Props} (h : WeakInv L s) (ho : WeakInv L o) : WeakInv L (s.merge o) := by
+/-- the merge before commit 179da67 preserves every clause except `Deleted ∩ dom Map = ∅` -/
+theorem weak_mergeOld {L : KV} {s o : Props} (h : WeakInv L s) (ho : WeakInv L o) : WeakInv L (s.mergeOld o) := by
   have hd := h.disj; have hm := h.modDom; have hu := h.untouched
   have od := ho.disj; have om := ho.modDom; have ou := ho.untouched
   constructor
   · intro x
-    rw [merge_mod, merge_del, mem_sremAll, mem_saddAll, mem_saddAll, mem_sremAll]
+    rw [mergeOld_mod, mergeOld_del, mem_sremAll, mem_saddAll, mem_saddAll, mem_sremAll]
     grind
   · intro x
-    rw [merge_mod, merge_m, mem_sremAll, mem_saddAll, lookup_eraseAll, lookup_overlay]
+    rw [mergeOld_mod, mergeOld_m, mem_sremAll, mem_saddAll, lookup_eraseAll, lookup_overlay]
     intro hx
     rw [if_neg hx.2]
     cases hlo : lookup o.m x with
@@ -376,7 +382,7 @@ theorem weak_merge {L : KV} {s o : Props} (h : WeakInv L s) (ho : WeakInv L o) :
       · exact hm x h1
       · exact absurd hlo (om x h1)
   · intro x
-    rw [merge_mod, merge_del, merge_m, mem_sremAll, mem_saddAll, mem_saddAll, mem_sremAll, lookup_eraseAll, lookup_overlay]
+    rw [mergeOld_mod, mergeOld_del, mergeOld_m, mem_sremAll, mem_saddAll, mem_saddAll, mem_sremAll, lookup_eraseAll, lookup_overlay]
     intro h1 h2
     have hxd : x ∉ o.del := fun hh => h2 (Or.inr hh)
     rw [if_neg hxd]
@@ -387,29 +393,29 @@ theorem weak_merge {L : KV} {s o : Props} (h : WeakInv L s) (ho : WeakInv L o) :
     | some v => simp only; rw [← hlo]; exact ou x hxm hxd
     | none => simp only; exact hu x hsm hsd
 
-/-- the exact condition under which the merge as it is keeps `Deleted ∩ dom Map = ∅` -/
+/-- the exact condition under which the old merge keeps `Deleted ∩ dom Map = ∅` -/
 def MergeSafe (s o : Props) : Prop := ∀ k, k ∈ s.del → lookup o.m k ≠ none → k ∈ o.mod
 
 instance (s o : Props) : Decidable (MergeSafe s o) :=
   inferInstanceAs (Decidable (∀ k, k ∈ s.del → lookup o.m k ≠ none → k ∈ o.mod))
 
-theorem merge_delDom_iff {L : KV} {s o : Props} (h : Inv L s) (ho : Inv L o) :
-    (∀ k, k ∈ (s.merge o).del → lookup (s.merge o).m k = none) ↔ MergeSafe s o := by
+theorem mergeOld_delDom_iff {L : KV} {s o : Props} (h : Inv L s) (ho : Inv L o) :
+    (∀ k, k ∈ (s.mergeOld o).del → lookup (s.mergeOld o).m k = none) ↔ MergeSafe s o := by
   have he := h.delDom; have oe := ho.delDom; have od := ho.disj
   constructor
   · intro hall k hk hlo
     apply Classical.byContradiction
     intro hkm
     have hkd : k ∉ o.del := fun hh => hlo (oe k hh)
-    have h1 : k ∈ (s.merge o).del := by
-      rw [merge_del, mem_saddAll, mem_sremAll]; exact Or.inl ⟨hk, hkm⟩
+    have h1 : k ∈ (s.mergeOld o).del := by
+      rw [mergeOld_del, mem_saddAll, mem_sremAll]; exact Or.inl ⟨hk, hkm⟩
     have h2 := hall k h1
-    rw [merge_m, lookup_eraseAll, if_neg hkd, lookup_overlay] at h2
+    rw [mergeOld_m, lookup_eraseAll, if_neg hkd, lookup_overlay] at h2
     cases hv : lookup o.m k with
     | none => exact hlo hv
     | some v => rw [hv] at h2; simp at h2
   · intro hsafe x
-    rw [merge_del, merge_m, mem_saddAll, mem_sremAll, lookup_eraseAll, lookup_overlay]
+    rw [mergeOld_del, mergeOld_m, mem_saddAll, mem_sremAll, lookup_eraseAll, lookup_overlay]
     intro hx
     by_cases hxd : x ∈ o.del
     · rw [if_pos hxd]
@@ -421,12 +427,12 @@ theorem merge_delDom_iff {L : KV} {s o : Props} (h : Inv L s) (ho : Inv L o) :
         exfalso
         exact hx'.2 (hsafe x hx'.1 (by rw [hlo]; simp))
 
-theorem inv_merge_iff {L : KV} {s o : Props} (h : Inv L s) (ho : Inv L o) :
-    Inv L (s.merge o) ↔ MergeSafe s o := by
-  have w := weak_merge h.toWeak ho.toWeak
+theorem inv_mergeOld_iff {L : KV} {s o : Props} (h : Inv L s) (ho : Inv L o) :
+    Inv L (s.mergeOld o) ↔ MergeSafe s o := by
+  have w := weak_mergeOld h.toWeak ho.toWeak
   constructor
-  · intro hi; exact (merge_delDom_iff h ho).1 hi.delDom
-  · intro hs; exact ⟨w.disj, w.modDom, (merge_delDom_iff h ho).2 hs, w.untouched⟩
+  · intro hi; exact (mergeOld_delDom_iff h ho).1 hi.delDom
+  · intro hs; exact ⟨w.disj, w.modDom, (mergeOld_delDom_iff h ho).2 hs, w.untouched⟩
 
 /-! ### the delta reproduces the current state -/
 
@@ -777,9 +783,9 @@ theorem deleteKinds_props (e : Ent) (ks : List Kind) : (e.deleteKinds ks).props 
   | nil => rfl
   | cons k ks ih => rw [deleteKinds_cons, ih]; rfl
 
-/-- the repaired kind merge preserves the kind invariant -/
-theorem kinv_mergeKindsFixed {L : List Kind} {s o : Ent} (h : KInv L s) (ho : KInv L o) :
-    KInv L (s.mergeKindsFixed o) := by
+/-- the kind merge preserves the kind invariant -/
+theorem kinv_mergeKinds {L : List Kind} {s o : Ent} (h : KInv L s) (ho : KInv L o) :
+    KInv L (s.mergeKinds o) := by
   have h1 := h.disj; have h2 := h.addedIn; have h3 := h.removedOut; have h4 := h.untouched
   have o1 := ho.disj; have o2 := ho.addedIn; have o3 := ho.removedOut; have o4 := ho.untouched
   have nK := nodup_kaddAll h.nodupK o.kinds
@@ -812,8 +818,8 @@ theorem kinv_mergeKindsFixed {L : List Kind} {s o : Ent} (h : KInv L s) (ho : KI
     have a := h4 x; have b := o4 x; have c := h3 x; have d := o3 x; have e := h2 x; have f := o2 x
     grind
 
-theorem weak_mergeKinds {L : List Kind} {s o : Ent} (h : WeakKInv L s) (ho : WeakKInv L o) :
-    WeakKInv L (s.mergeKinds o) := by
+theorem weak_mergeKindsOld {L : List Kind} {s o : Ent} (h : WeakKInv L s) (ho : WeakKInv L o) :
+    WeakKInv L (s.mergeKindsOld o) := by
   have h1 := h.disj; have h2 := h.addedIn; have h4 := h.untouched
   have o1 := ho.disj; have o2 := ho.addedIn; have o4 := ho.untouched
   have nK := nodup_kaddAll h.nodupK o.kinds
@@ -838,15 +844,15 @@ theorem weak_mergeKinds {L : List Kind} {s o : Ent} (h : WeakKInv L s) (ho : Wea
     have a := h4 x; have b := o4 x; have e := h2 x; have f := o2 x
     grind
 
-/-- the exact condition under which `Node.Merge` as it is keeps `DeletedKinds ∩ Kinds = ∅` -/
+/-- the exact condition under which the old `Node.Merge` keeps `DeletedKinds ∩ Kinds = ∅` -/
 def KMergeSafe (s o : Ent) : Prop := ∀ k, k ∈ s.removed → k ∈ o.kinds → k ∈ o.added
 
 instance (s o : Ent) : Decidable (KMergeSafe s o) :=
   inferInstanceAs (Decidable (∀ k, k ∈ s.removed → k ∈ o.kinds → k ∈ o.added))
 
-theorem kinv_mergeKinds_iff {L : List Kind} {s o : Ent} (h : KInv L s) (ho : KInv L o) :
-    KInv L (s.mergeKinds o) ↔ KMergeSafe s o := by
-  have w := weak_mergeKinds h.toWeak ho.toWeak
+theorem kinv_mergeKindsOld_iff {L : List Kind} {s o : Ent} (h : KInv L s) (ho : KInv L o) :
+    KInv L (s.mergeKindsOld o) ↔ KMergeSafe s o := by
+  have w := weak_mergeKindsOld h.toWeak ho.toWeak
   have h3 := h.removedOut; have o3 := ho.removedOut; have o1 := ho.disj
   have nK := nodup_kaddAll h.nodupK o.kinds
   have mK : ∀ x, x ∈ kremoveAll (kaddAll s.kinds o.kinds) o.removed ↔ (x ∈ s.kinds ∨ x ∈ o.kinds) ∧ x ∉ o.removed := by
@@ -975,84 +981,88 @@ theorem eweak_addKinds {L : Loaded} {x : Ent} (h : EWeak L x) (ks : List (Option
 theorem eweak_deleteKinds {L : Loaded} {x : Ent} (h : EWeak L x) (ks : List Kind) : EWeak L (x.deleteKinds ks) :=
   ⟨by rw [deleteKinds_props]; exact h.props, weak_deleteKinds h.kinds ks⟩
 
-theorem merge_true (s o : Ent) : Ent.merge true s o = { (s.mergeKindsFixed o) with props := s.props.mergeFixed o.props } := rfl
-theorem merge_false (s o : Ent) : Ent.merge false s o = { (s.mergeKinds o) with props := s.props.merge o.props } := rfl
+theorem merge_def (s o : Ent) : Ent.merge s o = { (s.mergeKinds o) with props := s.props.merge o.props } := rfl
+theorem mergeOld_def (s o : Ent) : Ent.mergeOld s o = { (s.mergeKindsOld o) with props := s.props.mergeOld o.props } := rfl
 
-theorem einv_merge_fixed {L : Loaded} {s o : Ent} (h : EInv L s) (ho : EInv L o) : EInv L (Ent.merge true s o) := by
-  have k := kinv_mergeKindsFixed h.kinds ho.kinds
-  rw [merge_true]
-  exact ⟨inv_mergeFixed h.props ho.props, ⟨k.nodupK, k.nodupA, k.nodupR, k.disj, k.addedIn, k.removedOut, k.untouched⟩⟩
+theorem einv_merge {L : Loaded} {s o : Ent} (h : EInv L s) (ho : EInv L o) : EInv L (Ent.merge s o) := by
+  have k := kinv_mergeKinds h.kinds ho.kinds
+  rw [merge_def]
+  exact ⟨inv_merge h.props ho.props, ⟨k.nodupK, k.nodupA, k.nodupR, k.disj, k.addedIn, k.removedOut, k.untouched⟩⟩
 
-theorem eweak_merge {L : Loaded} {s o : Ent} (h : EWeak L s) (ho : EWeak L o) : EWeak L (Ent.merge false s o) := by
-  have k := weak_mergeKinds h.kinds ho.kinds
-  rw [merge_false]
-  exact ⟨weak_merge h.props ho.props, ⟨k.nodupK, k.nodupA, k.nodupR, k.disj, k.addedIn, k.untouched⟩⟩
+theorem eweak_mergeOld {L : Loaded} {s o : Ent} (h : EWeak L s) (ho : EWeak L o) : EWeak L (Ent.mergeOld s o) := by
+  have k := weak_mergeKindsOld h.kinds ho.kinds
+  rw [mergeOld_def]
+  exact ⟨weak_mergeOld h.props ho.props, ⟨k.nodupK, k.nodupA, k.nodupR, k.disj, k.addedIn, k.untouched⟩⟩
 
-theorem einv_merge_iff {L : Loaded} {s o : Ent} (h : EInv L s) (ho : EInv L o) :
-    EInv L (Ent.merge false s o) ↔ (MergeSafe s.props o.props ∧ KMergeSafe s o) := by
-  rw [merge_false]
+theorem einv_mergeOld_iff {L : Loaded} {s o : Ent} (h : EInv L s) (ho : EInv L o) :
+    EInv L (Ent.mergeOld s o) ↔ (MergeSafe s.props o.props ∧ KMergeSafe s o) := by
+  rw [mergeOld_def]
   constructor
   · intro hi
-    refine ⟨(inv_merge_iff h.props ho.props).1 hi.props, (kinv_mergeKinds_iff h.kinds ho.kinds).1 ?_⟩
+    refine ⟨(inv_mergeOld_iff h.props ho.props).1 hi.props, (kinv_mergeKindsOld_iff h.kinds ho.kinds).1 ?_⟩
     have k := hi.kinds
     exact ⟨k.nodupK, k.nodupA, k.nodupR, k.disj, k.addedIn, k.removedOut, k.untouched⟩
   · intro hs
-    have k := (kinv_mergeKinds_iff h.kinds ho.kinds).2 hs.2
-    exact ⟨(inv_merge_iff h.props ho.props).2 hs.1,
+    have k := (kinv_mergeKindsOld_iff h.kinds ho.kinds).2 hs.2
+    exact ⟨(inv_mergeOld_iff h.props ho.props).2 hs.1,
       ⟨k.nodupK, k.nodupA, k.nodupR, k.disj, k.addedIn, k.removedOut, k.untouched⟩⟩
 
-/-- with the repaired merges every operation preserves the state invariant -/
-theorem sinv_step_fixed {L : Loaded} {st : St} (h : SInv L st) (o : Op) : SInv L (st.step true o) := by
+/-- every operation of the code as it is preserves the state invariant -/
+theorem sinv_step {L : Loaded} {st : St} (h : SInv L st) (o : Op) : SInv L (st.step false o) := by
   cases o with
   | set e k v => exact sinv_put h e (einv_withProps (h e) (inv_set (h e).props k v))
   | setAll e kvs => exact sinv_put h e (einv_withProps (h e) (inv_setAll (h e).props kvs))
   | delete e k => exact sinv_put h e (einv_withProps (h e) (inv_delete (h e).props k))
   | read e => exact h
   | clone e f => exact sinv_put h f (einv_withProps (h f) (by rw [clone_eq]; exact (h e).props))
-  | pmerge e f => exact sinv_put h e (einv_withProps (h e) (inv_mergeFixed (h e).props (h f).props))
+  | pmerge e f => exact sinv_put h e (einv_withProps (h e) (inv_merge (h e).props (h f).props))
   | addKinds e ks => exact sinv_put h e (einv_addKinds (h e) ks)
   | deleteKinds e ks => exact sinv_put h e (einv_deleteKinds (h e) ks)
-  | nmerge e f => exact sinv_put h e (einv_merge_fixed (h e) (h f))
+  | nmerge e f => exact sinv_put h e (einv_merge (h e) (h f))
+  | rmerge e f => exact sinv_put h e (einv_withProps (h e) (inv_merge (h e).props (h f).props))
 
-theorem sinv_run_fixed {L : Loaded} {st : St} (h : SInv L st) (ops : List Op) : SInv L (st.run true ops) := by
+theorem sinv_run {L : Loaded} {st : St} (h : SInv L st) (ops : List Op) : SInv L (st.run false ops) := by
   induction ops generalizing st with
   | nil => exact h
-  | cons o ops ih => exact ih (sinv_step_fixed h o)
+  | cons o ops ih => exact ih (sinv_step h o)
 
-/-- the code as it is: every operation, merges included, preserves every clause except
+/-- the code before commit 179da67: every operation, merges included, preserves every clause except
 `Deleted ∩ dom Map = ∅` / `DeletedKinds ∩ Kinds = ∅` -/
-theorem sweak_step {L : Loaded} {st : St} (h : SWeak L st) (o : Op) : SWeak L (st.step false o) := by
+theorem sweak_step_old {L : Loaded} {st : St} (h : SWeak L st) (o : Op) : SWeak L (st.step true o) := by
   cases o with
   | set e k v => exact sweak_put h e (eweak_withProps (h e) (weak_set (h e).props k v))
   | setAll e kvs => exact sweak_put h e (eweak_withProps (h e) (weak_setAll (h e).props kvs))
   | delete e k => exact sweak_put h e (eweak_withProps (h e) (weak_delete (h e).props k))
   | read e => exact h
   | clone e f => exact sweak_put h f (eweak_withProps (h f) (by rw [clone_eq]; exact (h e).props))
-  | pmerge e f => exact sweak_put h e (eweak_withProps (h e) (weak_merge (h e).props (h f).props))
+  | pmerge e f => exact sweak_put h e (eweak_withProps (h e) (weak_mergeOld (h e).props (h f).props))
   | addKinds e ks => exact sweak_put h e (eweak_addKinds (h e) ks)
   | deleteKinds e ks => exact sweak_put h e (eweak_deleteKinds (h e) ks)
-  | nmerge e f => exact sweak_put h e (eweak_merge (h e) (h f))
+  | nmerge e f => exact sweak_put h e (eweak_mergeOld (h e) (h f))
+  | rmerge e f => exact sweak_put h e (eweak_withProps (h e) (weak_mergeOld (h e).props (h f).props))
 
-theorem sweak_run {L : Loaded} {st : St} (h : SWeak L st) (ops : List Op) : SWeak L (st.run false ops) := by
+theorem sweak_run_old {L : Loaded} {st : St} (h : SWeak L st) (ops : List Op) : SWeak L (st.run true ops) := by
   induction ops generalizing st with
   | nil => exact h
-  | cons o ops ih => exact ih (sweak_step h o)
+  | cons o ops ih => exact ih (sweak_step_old h o)
 
-/-- side condition of one operation of the code as it is: merges must not re-introduce a key / kind the receiver
+/-- side condition of one operation of the code before commit 179da67: merges must not re-introduce a key / kind the receiver
 deleted and the other side merely carries -/
 def Op.SafeAt (st : St) : Op → Prop
   | .pmerge e f => MergeSafe (st.get e).props (st.get f).props
   | .nmerge e f => MergeSafe (st.get e).props (st.get f).props ∧ KMergeSafe (st.get e) (st.get f)
+  | .rmerge e f => MergeSafe (st.get e).props (st.get f).props
   | _ => True
 
 def St.SafeRun (st : St) : List Op → Prop
   | [] => True
-  | o :: ops => o.SafeAt st ∧ (st.step false o).SafeRun ops
+  | o :: ops => o.SafeAt st ∧ (st.step true o).SafeRun ops
 
 instance Op.decSafeAt (st : St) : (o : Op) → Decidable (o.SafeAt st)
   | .pmerge e f => inferInstanceAs (Decidable (MergeSafe (st.get e).props (st.get f).props))
   | .nmerge e f =>
     inferInstanceAs (Decidable (MergeSafe (st.get e).props (st.get f).props ∧ KMergeSafe (st.get e) (st.get f)))
+  | .rmerge e f => inferInstanceAs (Decidable (MergeSafe (st.get e).props (st.get f).props))
   | .set _ _ _ => isTrue trivial
   | .setAll _ _ => isTrue trivial
   | .delete _ _ => isTrue trivial
@@ -1064,38 +1074,43 @@ instance Op.decSafeAt (st : St) : (o : Op) → Decidable (o.SafeAt st)
 instance St.decSafeRun : (st : St) → (ops : List Op) → Decidable (st.SafeRun ops)
   | _, [] => isTrue trivial
   | st, o :: ops =>
-    match Op.decSafeAt st o, St.decSafeRun (st.step false o) ops with
+    match Op.decSafeAt st o, St.decSafeRun (st.step true o) ops with
     | isTrue a, isTrue b => isTrue ⟨a, b⟩
     | isFalse a, _ => isFalse (fun h => a h.1)
     | _, isFalse b => isFalse (fun h => b h.2)
 
-theorem sinv_step_current {L : Loaded} {st : St} (h : SInv L st) (o : Op) (hs : o.SafeAt st) :
-    SInv L (st.step false o) := by
+theorem sinv_step_old {L : Loaded} {st : St} (h : SInv L st) (o : Op) (hs : o.SafeAt st) :
+    SInv L (st.step true o) := by
   cases o with
   | set e k v => exact sinv_put h e (einv_withProps (h e) (inv_set (h e).props k v))
   | setAll e kvs => exact sinv_put h e (einv_withProps (h e) (inv_setAll (h e).props kvs))
   | delete e k => exact sinv_put h e (einv_withProps (h e) (inv_delete (h e).props k))
   | read e => exact h
   | clone e f => exact sinv_put h f (einv_withProps (h f) (by rw [clone_eq]; exact (h e).props))
-  | pmerge e f => exact sinv_put h e (einv_withProps (h e) ((inv_merge_iff (h e).props (h f).props).2 hs))
+  | pmerge e f => exact sinv_put h e (einv_withProps (h e) ((inv_mergeOld_iff (h e).props (h f).props).2 hs))
   | addKinds e ks => exact sinv_put h e (einv_addKinds (h e) ks)
   | deleteKinds e ks => exact sinv_put h e (einv_deleteKinds (h e) ks)
-  | nmerge e f => exact sinv_put h e ((einv_merge_iff (h e) (h f)).2 hs)
+  | nmerge e f => exact sinv_put h e ((einv_mergeOld_iff (h e) (h f)).2 hs)
+  | rmerge e f => exact sinv_put h e (einv_withProps (h e) ((inv_mergeOld_iff (h e).props (h f).props).2 hs))
 
 /-- … and the side condition is necessary: an unsafe merge breaks the invariant of its receiver -/
-theorem sinv_step_current_iff {L : Loaded} {st : St} (h : SInv L st) (o : Op) :
-    SInv L (st.step false o) ↔ o.SafeAt st := by
+theorem sinv_step_old_iff {L : Loaded} {st : St} (h : SInv L st) (o : Op) :
+    SInv L (st.step true o) ↔ o.SafeAt st := by
   constructor
   · intro hi
     cases o with
     | pmerge e f =>
       have := hi e
       simp only [St.step, get_put, if_true] at this
-      exact (inv_merge_iff (h e).props (h f).props).1 this.props
+      exact (inv_mergeOld_iff (h e).props (h f).props).1 this.props
     | nmerge e f =>
       have := hi e
       simp only [St.step, get_put, if_true] at this
-      exact (einv_merge_iff (h e) (h f)).1 this
+      exact (einv_mergeOld_iff (h e) (h f)).1 this
+    | rmerge e f =>
+      have := hi e
+      simp only [St.step, get_put, if_true] at this
+      exact (inv_mergeOld_iff (h e).props (h f).props).1 this.props
     | set e k v => trivial
     | setAll e kvs => trivial
     | delete e k => trivial
@@ -1103,13 +1118,13 @@ theorem sinv_step_current_iff {L : Loaded} {st : St} (h : SInv L st) (o : Op) :
     | clone e f => trivial
     | addKinds e ks => trivial
     | deleteKinds e ks => trivial
-  · exact sinv_step_current h o
+  · exact sinv_step_old h o
 
-theorem sinv_run_current {L : Loaded} {st : St} (h : SInv L st) (ops : List Op) (hs : st.SafeRun ops) :
-    SInv L (st.run false ops) := by
+theorem sinv_run_old {L : Loaded} {st : St} (h : SInv L st) (ops : List Op) (hs : st.SafeRun ops) :
+    SInv L (st.run true ops) := by
   induction ops generalizing st with
   | nil => exact h
-  | cons o ops ih => exact ih (sinv_step_current h o hs.1) hs.2
+  | cons o ops ih => exact ih (sinv_step_old h o hs.1) hs.2
 
 theorem safeRun_of_noMerge (st : St) (ops : List Op) (hm : ∀ o, o ∈ ops → o.isMerge = false) : st.SafeRun ops := by
   induction ops generalizing st with
@@ -1130,9 +1145,10 @@ def Op.target : Op → Bool
   | .addKinds e _ => e
   | .deleteKinds e _ => e
   | .nmerge e _ => e
+  | .rmerge e _ => e
 
-theorem step_frame (fixed : Bool) (st : St) (o : Op) (g : Bool) (hg : g ≠ o.target) :
-    (st.step fixed o).get g = st.get g := by
+theorem step_frame (old : Bool) (st : St) (o : Op) (g : Bool) (hg : g ≠ o.target) :
+    (st.step old o).get g = st.get g := by
   cases o <;> simp only [St.step, get_put, Op.target] at * <;> first | rfl | (rw [if_neg hg])
 
 /-! ### last edit wins -/
@@ -1203,5 +1219,61 @@ theorem inv_runEdits {L : KV} {s : Props} (h : Inv L s) (es : List Edit) : Inv L
     cases r with
     | some v => exact inv_set h k v
     | none => exact inv_delete h k
+
+/-! ### consumers -/
+
+/-- the full form: stored map overlaid with the WHOLE current map, minus the deleted keys -/
+theorem inv_reproduces_full {L : KV} {s : Props} (h : Inv L s) (k : Key) :
+    lookup (applyDelta L s.m s.del) k = lookup s.m k := by
+  unfold applyDelta
+  rw [lookup_eraseAll, lookup_overlay]
+  by_cases hd : k ∈ s.del
+  · rw [if_pos hd, h.delDom k hd]
+  · rw [if_neg hd]
+    cases hv : lookup s.m k with
+    | some v => rfl
+    | none =>
+      simp only
+      have hm : k ∉ s.mod := fun hh => h.modDom k hh hv
+      rw [← h.untouched k hm hd, hv]
+
+theorem kinv_reproduces_full {L : List Kind} {e : Ent} (h : KInv L e) (k : Kind) :
+    k ∈ applyKinds L e.kinds e.removed ↔ k ∈ e.kinds := by
+  unfold applyKinds
+  rw [List.mem_filter, List.mem_append]
+  have h1 := h.disj k; have h2 := h.addedIn k; have h3 := h.removedOut k; have h4 := h.untouched k
+  simp only [Bool.not_eq_true', List.contains_eq_mem, decide_eq_false_iff_not]
+  grind
+
+theorem sentProps_reproduces {L : KV} {s : Props} (h : Inv L s) (r : List Nat)
+    (ht : propsTouched r = true) (hok : propsPartOk r = true) (k : Key) :
+    lookup (applyDelta L (sentProps r s).1 (sentProps r s).2) k = lookup s.m k := by
+  unfold propsPartOk at hok
+  rw [ht] at hok
+  simp only [Bool.not_true, Bool.false_or, Bool.and_eq_true, Bool.not_eq_true', Bool.or_eq_false_iff,
+    Bool.or_eq_true] at hok
+  obtain ⟨_, h4, h35⟩ := hok
+  unfold sentProps
+  simp only [h4, if_true]
+  by_cases h3 : r.contains 3 = true
+  · simp only [h3, if_true]; exact inv_reproduces h k
+  · have h5 : r.contains 5 = true := h35.resolve_left h3
+    simp only [h3, h5, if_true, Bool.false_eq_true, if_false]
+    exact inv_reproduces_full h k
+
+theorem sentKinds_reproduces {L : List Kind} {x : Ent} (h : KInv L x) (r : List Nat)
+    (ht : kindsTouched r = true) (hok : kindsPartOk r = true) (k : Kind) :
+    k ∈ applyKinds L (sentKinds r x).1 (sentKinds r x).2 ↔ k ∈ x.kinds := by
+  unfold kindsPartOk at hok
+  rw [ht] at hok
+  simp only [Bool.not_true, Bool.false_or, Bool.and_eq_true, Bool.or_eq_true] at hok
+  obtain ⟨h1, h02⟩ := hok
+  unfold sentKinds
+  simp only [h1, if_true]
+  by_cases h0 : r.contains 0 = true
+  · simp only [h0, if_true]; exact kinv_reproduces h k
+  · have h2 : r.contains 2 = true := h02.resolve_left h0
+    simp only [h0, h2, if_true, Bool.false_eq_true, if_false]
+    exact kinv_reproduces_full h k
 
 end Dawgs.C12
